@@ -20,7 +20,7 @@ CHECKS = {
          "CRC-32 burst-detection theory for the oracle; linear resource bound constants 60 lines/byte and 64 B/byte (+fixed) calibrated at >20x the valid-input maximum", "3/C12"),
  "C15": ("pure", "exploration",
          "runtime oracle over real assignor + independent decoder; small configuration space enumerated",
-         "Generated member sets / subscriptions / partition maps are run through the real join_group_protocols -> generate_assignments -> decode_assignment in several permutations; exact cover, subscribed-only, balance, permutation invariance, decode=assign checked on each; all configurations up to 3 members x 2 topics x 3 partitions enumerated in thorough.",
+         "Generated member sets / subscriptions / partition maps are run through the real join_group_protocols -> generate_assignments -> decode_assignment in several permutations; exact cover, subscribed-only, balance, permutation invariance, decode=assign checked on each; all configurations up to 3 members x 2 topics x 3 partitions enumerated in thorough. Also on live groups (the C16 monitor's assignment clauses): the same leader assigning again after partitions were added, a failed partition lookup by the leader (an empty assignment is a violation), and each member creating exactly the consumers it was assigned.",
          "every member subscribes to >= 1 topic; partition map complete after the _NeedTopicPartitions retry", "3/C15"),
  "C18": ("pure", "exploration",
          "differential monitoring against Java (JVM), C and Python reference Murmur2; window-fairness monitor over selection histories",
@@ -42,14 +42,14 @@ CHECKS.update({
 CHECKS.update({
  "C07": ("client-e2e", "exploration",
          "per-broker request log of the simulated cluster + spy on the client's per-broker dispatch, compared with the metadata served and with the call's result",
-         "The real KafkaClient (real broker clients, protocol, codec) runs against the simulated cluster; sequential client calls of every kind with shuffled payload lists meet drawn subsets of refusing / dropping / silent / late brokers. Routing (leader named by a metadata served to this client; coordinator named by the last FindCoordinator answer; one request per broker, each payload once), result order, exact accounting of FailedPayloadsError, acks=0 success implies written, broker-agnostic requests try connected-at-call-time brokers first, then all known, then every bootstrap host.",
+         "The real KafkaClient (real broker clients, protocol, codec) runs against the simulated cluster; sequential client calls of every kind with shuffled payload lists meet drawn subsets of refusing / dropping / silent / late brokers. Routing (leader named by a metadata served to this client; coordinator named by the last FindCoordinator answer; one request per broker, each payload once), result order, exact accounting of FailedPayloadsError, acks=0 success implies written, broker-agnostic requests try connected-at-call-time brokers first, then all known, then every bootstrap host. Also: after a broker came back at another address and a full refresh said so, a dial to the superseded address with the payload not arriving is a violation.",
          "calls are sequential inside a scenario; the routing instant is 'any metadata view current during the call' (weaker reading, see DESIGN); cluster model per DESIGN 2.3", "3/C07"),
 })
 
 CHECKS.update({
  "C11": ("client-e2e", "exploration",
          "timing monitor at the wrapped _make_request_to_broker boundary on a virtual clock + timer-count invariant at every quiescent point + differential re-run without late replies",
-         "Requests of mixed kinds (incl. JoinGroup with its 35 s minimum) are answered promptly, late by drawn factors of the timeout (0.5 .. 3), or never, with brokers whose connections never establish and with disconnect-on-timeout on/off. Every per-broker request must resolve by issued+T, exactly at issued+T with RequestTimedOutError when no reply was delivered in time, at delivery time otherwise; armed timeout timers must equal outstanding requests after every event; removing late replies must change nothing; the silent connection is dropped at the timeout and its other requests reach the broker again.",
+         "Requests of mixed kinds (incl. JoinGroup with its 35 s minimum) are answered promptly, late by drawn factors of the timeout (0.5 .. 3), or never, with brokers whose connections never establish and with disconnect-on-timeout on/off. Every per-broker request must resolve by issued+T, exactly at issued+T with RequestTimedOutError when no reply was delivered in time, at delivery time otherwise; armed timeout timers must equal outstanding requests after every event; removing late replies must change nothing; the silent connection is dropped at the timeout and its other requests reach the broker again. Also: every request that reaches a broker client (brokerclient.makeRequest watched) either has a timed record or resolves within the timeout; version discovery retrying under one correlation id with late replies.",
          "virtual time: verdicts never depend on wall clock; exact ties between reply and timer accept either outcome", "3/C11"),
 })
 
@@ -63,11 +63,11 @@ CHECKS.update({
 CHECKS.update({
  "C01": ("producer-e2e", "exploration",
          "history checker: one recorder per send Deferred (plus AlreadyCalledError trap) against the cluster's applied/acknowledged produce log with unique per-send keys and values",
-         "The real Producer -> KafkaClient -> broker clients -> codec stack runs against the simulated cluster under generated configurations (acks 0/1/-1, batched or not, gzip, attempt limits, both message formats) and fault plans (error codes, per-partition errors, silent/dropping brokers with the write applied or not, late replies, leader moves, restarts, client close, unroutable topic). Every send must fire exactly once by a computed horizon; success requires an error-free acknowledgement, delivered before the firing, from the partition's leader at apply time for a request containing exactly its messages (acks=0: written before the firing); anything else must be a failure.",
+         "The real Producer -> KafkaClient -> broker clients -> codec stack runs against the simulated cluster under generated configurations (acks 0/1/-1, batched or not, gzip, attempt limits, both message formats) and fault plans (error codes, per-partition errors, silent/dropping brokers with the write applied or not, late replies, leader moves, restarts, client close, unroutable topic). Every send must fire exactly once by a computed horizon; success requires an error-free acknowledgement, delivered before the firing, from the partition's leader at apply time for a request containing exactly its messages (acks=0: written before the firing); anything else must be a failure. Also a cached leader that has become unreachable for good (acks 0 and 1) and a cancelled send whose partition lookup fails inside a batch.",
          "leader truth is the cluster model's; sends still queued below thresholds with no time limit are C19's subject", "3/C01"),
  "C09": ("producer-e2e", "exploration",
          "trace checker over the produce requests in the order the client wrote them (parsed by the independent codec), the responses delivered, producer batch hand-overs, client-call counts and retry timers",
-         "Same engine plus a zero-latency timing workload and a mixed-outcome workload (one batch over several leaders, first attempt partially failing, leader going away before the retry, client closed mid-retry). Checked: order and contiguity inside payloads and in the final logs, one payload per attempt, no batch handed to the client while an earlier one is unresolved, a payload whose error-free acknowledgement was received is never written again and is reported before the batch's next attempt, attempts (on the wire and at the producer->client boundary) never exceed the maximum, retry delays geometric from the configured interval and reset when the batch resolves.",
+         "Same engine plus a zero-latency timing workload and a mixed-outcome workload (one batch over several leaders, first attempt partially failing, leader going away before the retry, client closed mid-retry). Checked: order and contiguity inside payloads and in the final logs, one payload per attempt, no batch handed to the client while an earlier one is unresolved, a payload whose error-free acknowledgement was received is never written again and is reported before the batch's next attempt, attempts (on the wire and at the producer->client boundary) never exceed the maximum, retry delays geometric from the configured interval and reset when the batch resolves. Also acks=0 batches meeting an unreachable cached leader: a written payload is neither re-sent nor held back until the sibling's retry.",
          "observes Producer._send_requests / _complete_batch_send / client.send_produce_request and the reactor's callLater through harness wrappers; traffic after stop() is left to C19", "3/C09"),
 })
 
@@ -81,11 +81,11 @@ CHECKS.update({
 CHECKS.update({
  "C02": ("consumer-e2e", "exploration",
          "history checker: processor invocations (offset, key, value; overlap) against the partition log generated as data, with segment boundaries derived from what the cluster answered",
-         "The real Consumer -> KafkaClient stack consumes logs generated as data (compaction gaps, plain and gzip batches in both message formats, oversized records, log start > 0, appends, retention) from numeric/earliest/latest/committed positions, with sync/async/chained processors, commits, stop+restart, and faults on every request kind plus leader moves. Delivered offsets must equal the log from the resolved position, strictly increasing without omission or repeat, with the stored key/value; never overlapping; discontinuities only at a reset-policy firing or a restart; a healthy idle consumer with records left is a violation.",
+         "The real Consumer -> KafkaClient stack consumes logs generated as data (compaction gaps, plain and gzip batches in both message formats, oversized records, log start > 0, appends, retention) from numeric/earliest/latest/committed positions, with sync/async/chained processors, commits, stop+restart, and faults on every request kind plus leader moves. Delivered offsets must equal the log from the resolved position, strictly increasing without omission or repeat, with the stored key/value; never overlapping; discontinuities only at a reset-policy firing or a restart; a healthy idle consumer with records left is a violation. Also fetch replies damaged in transit (good prefix, bad last message) and a restart of the same consumer after a shutdown whose commit was refused. One more defect found there was fixed in /repo.",
          "unique (key,value) per offset; resolved start = the cluster's own ListOffsets/OffsetFetch answer; slow-but-active is recorded, not judged", "3/C02"),
  "C13": ("consumer-e2e", "exploration",
          "stop-point injection: stop()/shutdown() after a drawn reactor event of each situation surveyed in a stop-free baseline run (also from inside the processor and from the start errback), then restart; monitors on processor calls, client writes, delayed calls and the start/shutdown Deferreds",
-         "After stop() returned: no processor call, no Fetch/ListOffsets/OffsetFetch/OffsetCommit frame written until the restart, no delayed call bound to the consumer; stop() returns normally; the start Deferred fires exactly once with the offset (or with an earlier unrecoverable failure, never with the echo of stop's own cancellations); shutdown's Deferred fires once, no processor call begins after it was requested, committed == processed == coordinator's stored offset on success; a restarted consumer delivers again. Ten defects found here were fixed in /repo; one is listed as known.",
+         "After stop() returned: no processor call, no Fetch/ListOffsets/OffsetFetch/OffsetCommit frame written until the restart, no delayed call bound to the consumer; stop() returns normally; the start Deferred fires exactly once with the offset (or with an earlier unrecoverable failure, never with the echo of stop's own cancellations); shutdown's Deferred fires once, no processor call begins after it was requested, committed == processed == coordinator's stored offset on success; a restarted consumer delivers again. Ten defects found here were fixed in /repo; one is listed as known. Also shutdown() pre-empted by stop() and shutdown() whose commit the coordinator refuses, at surveyed points, each followed by a restart.",
          "situations classified from Consumer attributes (stratification only); the C02 stream oracle stays on", "3/C13"),
  "C08": ("client-e2e", "exploration",
          "online monitor wrapped around the real client's metadata merge (harness-side): every metadata response, as recorded by the simulated cluster and paired by correlation id, is compared with the client's view right after it was merged, across generated histories of cluster mutations, refreshes and requests; connect hook on the simulated network for dialled addresses; wire inspection after not-leader / unknown-partition answers and failed sends; producer + consumers under finite fault sequences with bounded-recovery oracle",
